@@ -499,6 +499,12 @@ func (c *Ctx) symStr(v ssa.Value, depth int) string {
 		}
 		return c.symStr(v.Tuple, depth+1) + fmt.Sprintf("#%d", v.Index)
 	case *ssa.Call:
+		if _, isTuple := v.Type().(*types.Tuple); !isTuple {
+			// (a constructor that returns a fresh object keeps its name)
+			if s, ok := c.inlineWrapper(v, 0, depth); ok && !strings.Contains(s, "local:") {
+				return s
+			}
+		}
 		var a []string
 		for _, x := range v.Call.Args {
 			a = append(a, c.symStr(x, depth+1))
